@@ -8,6 +8,7 @@ package main
 // pkg/color into the real multiterm.VirtualTerm; the Lean model (lean/Rare/Model/C14.lean)
 // predicts the same lines.  Ops (fields after the property id):
 //
+//	scname <hex>                                           termscaler.ScalerByName (the --scale flag)
 //	scale  <sc> <val> <min> <max>                          Scale bits + Bucket/LengthVal for the palette sizes
 //	barw   <uni> <maxLen> <sc> <val> <min> <max>           termunicode.BarWrite(Scale(..), maxLen)
 //	stack  <col> <uni> <maxVal> <maxLen> <vals>            termunicode.BarWriteStacked
@@ -42,6 +43,7 @@ import (
 	"sort"
 	"strconv"
 	"strings"
+	"unicode"
 
 	"rare/pkg/aggregation"
 	"rare/pkg/aggregation/sorting"
@@ -159,6 +161,21 @@ func c14Run(f []string) (ans string) {
 			outs = append(outs, fm(c14I64(p[0]), c14I64(p[1]), c14I64(p[2])))
 		}
 		return "ok " + HexListS(outs)
+	case "scname":
+		// <hex name>: termscaler.ScalerByName; the scaler is told by what it computes (a Scaler holds two closures)
+		sc, ok := termscaler.ScalerByName(string(UnHex(f[1])))
+		u := sc.Scale(10, 1, 100)
+		switch {
+		case !ok && u == 0:
+			return "ok none"
+		case ok && u == 9.0/99.0:
+			return "ok linear"
+		case ok && u == 0.5:
+			return "ok log10"
+		case ok && u == math.Log2(10)/7:
+			return "ok log2"
+		}
+		return fmt.Sprintf("ok unknown %v %v", ok, u)
 	case "scale":
 		sc := c14Scaler(f[1])
 		u := sc.Scale(c14I64(f[2]), c14I64(f[3]), c14I64(f[4]))
@@ -1018,12 +1035,44 @@ func c14GenSmall(r *Rand) string {
 	}
 }
 
+// names for ScalerByName: the accepted ones in random case, with İ (U+0130 lowers to i) and the Kelvin sign (lowers to k),
+// prefixes / extensions, blanks, invalid UTF-8, other words
+func c14GenScName(r *Rand) string {
+	base := Pick(r, []string{"linear", "lin", "", "log10", "log", "log2", "log1", "ln", "linea", "linearr", "log 2", " log2", "none", "null", "exp"})
+	rs := []rune(base)
+	for i := range rs {
+		switch {
+		case r.Chance(1, 3):
+			rs[i] = unicode.ToUpper(rs[i])
+		case rs[i] == 'i' && r.Chance(1, 4):
+			rs[i] = 0x130
+		case r.Chance(1, 40):
+			rs[i] = Pick(r, []rune{0x212A, 0x131, 0x17F, 'k', 0xff4c, 0x3bb})
+		}
+	}
+	s := string(rs)
+	if r.Chance(1, 15) {
+		b := []byte(s)
+		b = append(b, Pick(r, []byte{0xff, 0xc3, 0x80, 0}))
+		s = string(b)
+	}
+	return "scname " + HexS(s)
+}
+
 func c14Gen(r *Rand, tier string) []string {
 	nSmall, nRender := 2500, 2500
 	if tier == "thorough" {
 		nSmall, nRender = 150000, 150000
 	}
 	var out []string
+	for _, n := range []string{"linear", "lin", "", "log10", "log", "log2", "LINEAR", "Log2", "L\u0130N", "lo\u212a", "log\xff"} {
+		if u, err := strconv.Unquote(`"` + n + `"`); err == nil {
+			out = append(out, "scname "+HexS(u))
+		}
+	}
+	for i := 0; i < nSmall/20; i++ {
+		out = append(out, c14GenScName(r))
+	}
 	for i := 0; i < nSmall; i++ {
 		out = append(out, c14GenSmall(r))
 	}
